@@ -17,7 +17,7 @@ CLAIMED = {
    text="Machine-checked proof (Coq, axiom-free) about model/Validate.v, an abstract argument descriptor (level as a rational, functional / bin-method class, n_bins, the lengths, weight rank and sign class, scoring kind) and, per entry point (18 of them), "
         "the outcome Ok | ValueError | NotImplementedError | other in the order the real prelude tests: validate_ok_iff (the EXACT accept set), constraint_enforced, constraint_value_error (ValueError, resp. NotImplementedError for weighted quantile regression, "
         "for every in-scope entry point), valid_accepted and per-clause readings, for all rational levels, integer n_bins and lengths. Tie: every `if ...: raise` guard is extracted from the AST and compared with a committed expected list, and the descriptor space "
-        "(363k descriptors, 775k real calls) is enumerated EXHAUSTIVELY against the real entry points with outcomes compared inside Coq. One genuine defect repaired (fix 872bdaf: ShapeError instead of ValueError in plot_reliability_diagram).",
+        "(701k descriptors incl. single-observation and length-1 mismatch classes, 1.49M real calls) is enumerated EXHAUSTIVELY against the real entry points with outcomes compared inside Coq. One genuine defect repaired (fix 872bdaf: ShapeError instead of ValueError in plot_reliability_diagram).",
    note="Reading of the text fixed in comments of proofs/ValidateProps.v: level counts only where documented as used; bin constraints only when a feature is binned; the private IsotonicRegression class is outside the exception-class clause; "
         "third-party raises (np.average, polars, sklearn) are modelled by their observed class.",
    technique="Coq proof (case analysis + lia/lra) + guard extraction from source + exhaustive enumeration of the descriptor space against the implementation", ref="4 C20"),
